@@ -205,10 +205,16 @@ fn main() {
         }
     }
     let mut n_vec = 0u64;
+    let only_outcome = arg("--only-outcome");
     for f in &files {
         for v in read_tagged(f, "VEC") {
-            n_vec += 1;
             let reqs: Vec<Value> = v["reqs"].as_array().unwrap().clone();
+            if let Some(only) = &only_outcome {
+                if !reqs.iter().any(|r| r["outcome"].as_str() == Some(only.as_str())) {
+                    continue;
+                }
+            }
+            n_vec += 1;
             let authn = v["cfg"]["authn"].as_bool().unwrap();
             let sni_mode = v["cfg"]["sni"].as_str().unwrap().to_string();
             let sni = if sni_mode == "none" { None } else { Some(v["sni"].as_str().unwrap().to_string()) };
